@@ -16,6 +16,7 @@ type Spec struct {
 	Name     string            `json:"name"`
 	MaxTasks int               `json:"max_tasks"`
 	LogFile  string            `json:"log_file,omitempty"` // non-empty: NewWorkflowCustomLogFile
+	Also     []*Spec           `json:"also,omitempty"`     // further workflows built and run concurrently with this one in the same process (same working directory)
 	Links    map[string]string `json:"links,omitempty"`    // symbolic links (path below the working directory -> target) made before the sources are written
 	Procs    []*Proc           `json:"procs"`
 	Conns    []*Conn           `json:"conns"`
